@@ -142,6 +142,8 @@ int cif_pktitr_next_packet(
         FAILURE_HANDLING;
         sqlite3_stmt *stmt = iterator->stmt;
         int current_row = sqlite3_column_int(stmt, 0);
+        int previous_row = iterator->previous_row_num;
+        int stepped = CIF_FALSE;
         cif_packet_tp *temp_packet;
         int result;
     
@@ -182,6 +184,7 @@ int cif_pktitr_next_packet(
                 GET_VALUE_PROPS(stmt, 2, &(entry->as_value), soft);
     
                 /* check whether there are any more values for the current packet */
+                stepped = CIF_TRUE;
                 switch (sqlite3_step(stmt)) {
                     case SQLITE_ROW:
                         next_row = sqlite3_column_int(stmt, 0);
@@ -287,6 +290,19 @@ int cif_pktitr_next_packet(
     
             FAILURE_HANDLER(soft):
             cif_packet_free(temp_packet);
+            if (stepped) {
+                /*
+                 * Part or all of the packet has been consumed; return to its first value so that the packet is not
+                 * lost or delivered incomplete when the caller tries again.
+                 */
+                iterator->previous_row_num = previous_row;
+                iterator->finished = 0;
+                if (sqlite3_reset(stmt) == SQLITE_OK) {
+                    while ((sqlite3_step(stmt) == SQLITE_ROW) && (sqlite3_column_int(stmt, 0) != current_row)) {
+                        /* empty */
+                    }
+                }
+            }
         }
     
         FAILURE_TERMINUS;
